@@ -29,6 +29,8 @@ THEOREMS = [
     "C28_ci_final_sigma_refuted",
     "C28_starts_with_ci_refuted",
     "C28_starts_with_ci_spec",
+    "C28_starts_with_cs_implies_ci",
+    "C28_chars_iterator_valid",
     "C28_truncate_len",
     "C28_truncate_spec",
     "C28_strlen_utf8",
@@ -80,9 +82,10 @@ MANIFEST = {
             "(Model/Casing.v: snake/kebab/screaming idempotent there, camel/pascal refuted); on other input, and for regex "
             "split patterns, the laws are only searched on the implementation (level of that part: test). merge_right_bias assumes unique keys in `from` "
             "(a BTreeMap). Known findings (genuine defects, see known_findings/C28.json): case-insensitive starts_with "
-            "zips chars (\"K\" U+212A starts with \"kk\"), panics on invalid UTF-8; case-insensitive ends_with/contains miss "
+            "zips chars (\"K\" U+212A starts with \"kk\"); case-insensitive ends_with/contains miss "
             "matches because of the final-sigma rule; camelcase/pascalcase (and on titlecase/multi-char-uppercase letters all "
-            "casing functions) are not idempotent; snakecase!(non-string) panics. No axioms (Print Assumptions: closed).",
+            "casing functions) are not idempotent. Fixed in /repo and followed here: starts_with(case_sensitive: false) on invalid "
+            "UTF-8 (d3a86c2, now modelled: Chars items Ok char | Err byte) and snakecase!(non-string) (dd81ffa). No axioms (Print Assumptions: closed).",
     "design_ref": "DESIGN.md section 5 C28",
 }
 
@@ -328,14 +331,22 @@ def g_search(rng, op):
         s = rng.choice(["K", "KK", "İa", "i̇a", "ẞ", "Åx", "ia", "Ⱥab", "kk", "Kk", "ſs"])
         p = rng.choice(["kk", "k", "K", "kkk", "İ", "i", "i̇", "ß", "åx", "ⱥ", "ss", "S", "Kkk"])
     sb, pb = s.encode(), p.encode()
-    if rng.random() < 0.03:
-        # invalid UTF-8 (byte-level cut / stray byte)
-        if rng.random() < 0.5 and len(pb) > 1:
+    if rng.random() < 0.12:
+        # invalid UTF-8 (byte-level cut / stray or truncated bytes, in the needle, the haystack or both)
+        bad = rng.choice([b"\xff", b"\xc3", b"\x80", b"\xe2\x82", b"\xf0\x9f\x98", b"\xed\xa0\x80", b"\xc0\xaf", b"\xf5"])
+        r2 = rng.random()
+        if r2 < 0.3 and len(pb) > 1:
             pb = pb[:-1] if op != "ends_with" else pb[1:]
-        else:
-            sb = sb + rng.choice([b"\xff", b"\xc3"])
+        elif r2 < 0.6:
+            i = rng.randint(0, len(pb))
+            sb, pb = sb[:i] + bad + sb[i:], pb[:i] + bad + pb[i:]
+        elif r2 < 0.8:
+            sb = sb + bad
             if rng.random() < 0.5:
                 pb = sb[-1:]
+        else:
+            i = rng.randint(0, len(pb))
+            pb = pb[:i] + bad + pb[i:]
     return mk(op, jb(sb), jb(pb))
 
 
@@ -565,8 +576,6 @@ def _out_text(o, i):
 
 def _casing_matcher(cls, c, o):
     a = c["args"][0] if c.get("args") else None
-    if cls == "snakecase-nonstring-panic":
-        return "panic" in o and "snakecase" in o.get("src", "") and not (isinstance(a, dict) and "b" in a)
     if "panic" in o or not (isinstance(a, dict) and "b" in a):
         return False
     text = bytes.fromhex(a["b"]).decode("utf-8", "replace")
@@ -609,9 +618,6 @@ def known_matcher(entry, c, o):
     s, p = _arg_bytes(c, 0), _arg_bytes(c, 1)
     if s is None or p is None:
         return False
-    if cls == "starts-with-ci-panic":
-        return op == "starts_with" and "panic" in o and "case_sensitive: false" in o.get("src", "") \
-            and not (_valid(s) and _valid(p))
     if "panic" in o:
         return False
     text = s.decode("utf-8", "replace") + p.decode("utf-8", "replace")
